@@ -225,6 +225,29 @@ def binning_clause(ctx, st, pt, comp):
                 return
 
 
+def threshold_clause(ctx, st, pt, comp, t, res):
+    """a pattern pruned by min_abundance_threshold=t is exactly the peaks of the unpruned pattern whose abundance relative
+    to the largest peak is at least t (completeness under pruning)"""
+    ctx.begin({'composition': comp, 'clause': 'threshold', 'threshold': t, 'resolution': res})
+    full = call(st, pt.isotopic_distribution, dict(comp), None, None, res).get('result')
+    cut = call(st, pt.isotopic_distribution, dict(comp), None, t, res).get('result')
+    if full is None or cut is None:
+        ctx.inconclusive_case('monitor not reached')
+        return
+    count(st, 'threshold-completeness')
+    ctx.decided()
+    must = [(m, a) for m, a in full if a >= t * (1 + 1e-9)]
+    may = [(m, a) for m, a in full if a >= t * (1 - 1e-9)]
+    got = {round(m, 9): a for m, a in cut}
+    missing = [(m, a) for m, a in must if round(m, 9) not in got]
+    extra = [m for m in got if m not in {round(mm, 9) for mm, _a in may}]
+    wrong = [(m, a, got[round(m, 9)]) for m, a in must if round(m, 9) in got and abs(got[round(m, 9)] - a) > 1e-12]
+    if missing or extra or wrong:
+        ctx.violation('thresholded-pattern-differs-from-pruned-full-pattern',
+                      {'composition': comp, 'threshold': t, 'resolution': res, 'expected_peaks': len(must),
+                       'observed_peaks': len(cut), 'missing': missing[:4], 'extra': extra[:4], 'wrong': wrong[:3]})
+
+
 def exact_clause(ctx, st, pt, comp):
     ctx.begin({'composition': comp, 'clause': 'exact'})
     res = 6
@@ -329,6 +352,10 @@ def run(ctx):
             ctx.sample({'composition': comp, 'options': opts})
         if i % 5 == 0 and not frac:
             binning_clause(ctx, st, pt, {k2: v for k2, v in comp.items() if k2 in LIGHT and v})
+        if i % 3 == 0 and not frac:
+            plain = {k2: v for k2, v in comp.items() if k2 not in ('e', 'p', 'n') and v}
+            if plain and sum(plain.values()) <= 80:
+                threshold_clause(ctx, st, pt, plain, rng.choice([1e-6, 1e-3, 1e-3, 0.05]), rng.choice([2, 4, 5]))
     # averagine estimate: lightest peak at the requested neutral mass
     for _ in range(ctx.n(200, 4000)):
         m = round(rng.uniform(200, 4000), 3)
@@ -379,6 +406,8 @@ def replay(ctx, case):
         exact_clause(ctx, st, pt, case['composition'])
     elif case.get('clause') == 'binning':
         binning_clause(ctx, st, pt, case['composition'])
+    elif case.get('clause') == 'threshold':
+        threshold_clause(ctx, st, pt, case['composition'], case['threshold'], case['resolution'])
     elif 'composition' in case:
         frac = any(isinstance(v, float) for v in case['composition'].values())
         check_distribution(ctx, st, pt, case['composition'], frac, case['options'])
